@@ -51,8 +51,12 @@ def case_strategy(draw, tier="quick"):
     fin = st.tuples(st.just("fin"), st.just(0), st.just(0))
     lo = draw(st.sampled_from([2, 6, 12]))
     acts = draw(st.lists(st.one_of(emit, emit, emit, adv, adv, fin), min_size=lo, max_size=40))
-    return {"spec": {"nodes": nodes, "fb": None}, "cmodes": {"2": mode},
-            "actions": [list(a) for a in acts]}
+    acts = [list(a) for a in acts]
+    if draw(st.integers(0, 2)) == 0:
+        # bursts: "!" = the next action follows before the loop runs anything
+        marks = draw(st.lists(st.integers(0, 2), min_size=len(acts), max_size=len(acts)))
+        acts = [a + ["!"] if m == 0 and a[0] == "emit" else a for a, m in zip(acts, marks)]
+    return {"spec": {"nodes": nodes, "fb": None}, "cmodes": {"2": mode}, "actions": acts}
 
 
 def execute(case):
